@@ -132,6 +132,31 @@ def run(rep, tier, build, replay=None):
                         rep.fail('examples or counts (text, language, metadata) differ in the export', cs,
                                  {'of': bad[:1], 'got': ex_.get(bad[0]) if bad else None,
                                   'expected': sx_.get(bad[0]) if bad else None})
+                    # sense -> frames, against the SOURCE DOCUMENT (an error made while adding is exported faithfully and
+                    # survives the round trip, so the comparison of the two databases cannot see it)
+                    import expect
+                    un = expect.Universe([(nm, res[nm])])
+                    want_fr = {}
+                    for e_s in src.get('entries', []):
+                        for se in e_s.get('senses', []):
+                            want_fr[se['id']] = sorted(un.frames_of_sense(nm, e_s, se))
+                    got_fr = {k_: [] for k_ in want_fr}
+                    lvl = {fr.get('id'): fr['subcategorizationFrame'] for fr in lx.get('frames', []) if fr.get('id')}
+                    for e_e in lx.get('entries', []):
+                        for se in e_e.get('senses', []):
+                            for fid in se.get('subcat', []) or []:
+                                if fid in lvl:
+                                    got_fr.setdefault(se['id'], []).append(lvl[fid])
+                        for fr in e_e.get('frames', []):
+                            for sid_ in (fr.get('senses') or [se_['id'] for se_ in e_e.get('senses', [])]):
+                                got_fr.setdefault(sid_, []).append(fr['subcategorizationFrame'])
+                    got_fr = {k_: sorted(set(v_)) for k_, v_ in got_fr.items()}
+                    idless = any(not fr.get('id') for fr in src.get('frames', [])) or any(e_s.get('frames') for e_s in src.get('entries', []))
+                    if got_fr != want_fr and not (v != '1.0' and idless):
+                        bad = [k_ for k_ in want_fr if want_fr[k_] != got_fr.get(k_)]
+                        rep.fail('the frames of a sense in the export differ from the source document', cs,
+                                 {'sense': bad[:1], 'got': got_fr.get(bad[0]) if bad else None,
+                                  'expected': want_fr.get(bad[0]) if bad else None})
                     ili_s = {ss['id']: (ss['ili'], (ss.get('ili_definition') or {}).get('text') if ss['ili'] == 'in' else None)
                              for ss in src['synsets']}
                     ili_e = {ss['id']: (ss['ili'], (ss.get('ili_definition') or {}).get('text') if ss['ili'] == 'in' else None)
